@@ -1310,6 +1310,57 @@ def check_different_grids(run, exe, scratch):
 
 
 # ==========================================================================================
+# data read through inputPrefix is what every walker starts from: it is in the union once
+# ==========================================================================================
+
+def check_input_prefix(run, exe, scratch):
+    import shutil as _sh
+    for mode, n in (("shared", 2), ("script", 2), ("script", 3)):
+        run.count("input-prefix:%s:%d" % (mode, n), True)
+        run.dist("abf:input-prefix")
+        dirs = []
+        for i in range(n):
+            d = os.path.join(scratch, "ip%d" % i)
+            _sh.rmtree(d, ignore_errors=True)
+            os.makedirs(d)
+            dirs.append(d)
+        case = {"nd": 1, "nbins": [3], "freq": 2, "n": n, "output": True}
+        try:
+            with W.Team(exe, n, dirs, timeout_ms=3000) as T:
+                T.all_do(lambda i: scen.abf_setup(case), 20)
+                for t in range(5):
+                    T.all_do(lambda i: scen.step_lines(case, [i % 2], [1.0]), 20)
+                d0 = scen.parse_shared(T.all_do(["postrun", "dumpshared a"], 20)[0])
+            inp = list(d0["cnt"])           # what out.all.count holds: the global counts of replica 0 at the end of the first job
+            case2 = dict(case, script=(mode == "script"), freq=(0 if mode == "script" else 2), output=False)
+
+            def setup2(i):
+                L = scen.abf_setup(case2)
+                k = L.index("  name a")
+                L.insert(k + 1, "  inputPrefix %s/out.all" % dirs[0])
+                return L
+            with W.Team(exe, n, dirs, timeout_ms=3000) as T:
+                T.all_do(setup2, 20)
+                for t in range(3):
+                    res = T.all_do(lambda i: scen.step_lines(case2, [2], [1.0]), 20)
+                if mode == "script":
+                    res = T.all_do(["script cv bias a share", "dumpshared a"], 20)
+                dumps = [scen.parse_shared(r) for r in res]
+        except W.WalkerTimeout as e:
+            run.violation("abf:input-prefix-hang", "walkers with inputPrefix stopped answering (%s)" % str(e)[:120], {"kind": "input-prefix", "mode": mode})
+            continue
+        # steps 1 and 2 of the second job are sampled (bin 2) before the exchange of step 2 (shared on: the sample of step 2 comes
+        # after the exchange and is in the global grid only)
+        new = 2 * n if mode == "script" else n
+        exp = [inp[0], inp[1], inp[2] + new]
+        got = [d["lcnt"] for d in dumps]
+        if any(g != exp for g in got):
+            run.violation("abf:input-data-not-once", "%d walkers read the same counts %s through inputPrefix (sharing enabled by %s) and sampled bin 2: after the "
+                          "first exchange the combined counts are %s, the input once plus every new sample once is %s" %
+                          (n, inp, "the configuration" if mode == "shared" else "a script", got, exp), {"kind": "input-prefix", "mode": mode, "n": n})
+
+
+# ==========================================================================================
 # an exchange round that a dying walker interrupts, at every point of the round
 # ==========================================================================================
 
@@ -1526,6 +1577,7 @@ def check(run):
         check_rewrite_order(run, exe, scratch)
         check_different_grids(run, exe, scratch)
         check_rejected_configs(run, exe, scratch)
+        check_input_prefix(run, exe, scratch)
         run_cases(run, exe, model, load_corpus(), scratch)
         na, nm, nv, nr = (60, 45, 30, 12) if quick else (1500, 1200, 800, 300)
         big = not quick      # more than four walkers: thorough tier only
